@@ -132,7 +132,7 @@ def _args(name, a, kw):
         elif k == "values":
             out[k] = None if v is None else [fl(x) for x in v]
         elif k == "state":
-            out[k] = None if v is None else v.name
+            out[k] = None if v is None else (v.name if hasattr(v, "name") else [x.name for x in v])
         elif k == "states":
             out[k] = None if v is None else [s.name for s in v]
         elif isinstance(v, (int, str, bool)) or v is None:
@@ -165,8 +165,9 @@ def _ret(name, r):
 def _key(obj):
     """which backend state does this object talk to?"""
     k = obj.__dict__.get("_verif_key")
-    if k is not None:
-        return k
+    if k is not None and k[0] == id(obj):
+        return k[1]
+    copied = k is not None          # a copy / unpickled twin of a recorded object: its state did not start empty
     cls = type(obj).__name__
     k = None
     try:
@@ -187,8 +188,10 @@ def _key(obj):
     except Exception:
         k = None
     if k is None:
-        k = f"obj:{os.getpid()}:{next(_gid)}:{cls}"
-    obj.__dict__["_verif_key"] = k
+        k = f"{'tainted' if copied else 'obj'}:{os.getpid()}:{next(_gid)}:{cls}"
+    elif copied and k.startswith("journalobj:"):
+        k = "tainted:" + k
+    obj.__dict__["_verif_key"] = (id(obj), k)
     return k
 
 
